@@ -137,8 +137,46 @@ def g_c09_tie_after_warm(rng):
     c["ops"] = [("fit", ds, rs, cx), ("pred", q(1)), ("pexp", q(2)), ("warm", arms, [feats[a] for a in arms], 1.0), ("pred", q(1)), ("pred", q(3)), ("pexp", q(1))]
     return c
 
+def g_c09_near_tie(rng):
+    """two arms whose mean rewards are EQUAL as rationals and differ in the last binary digit as computed (rewards on the 0.1 grid, other
+    groupings of the same total); the arm with the smaller computed mean comes first in the arm list: predict must return the later arm, the
+    strict maximum of the expectations - a tolerance in the arg-max would return the earlier one"""
+    import numpy as np
+    for _ in range(400):
+        n = rng.randint(2, 5)
+        a = [rng.randint(0, 10) for _ in range(n)]
+        b = list(a)
+        for _ in range(rng.randint(1, 3)):                      # move tenths between entries: the same total, another grouping
+            i, j = rng.randrange(n), rng.randrange(n)
+            k = rng.randint(1, 3)
+            if i != j and b[i] - k >= 0 and b[j] + k <= 10:
+                b[i] -= k; b[j] += k
+        rng.shuffle(b)
+        fa = [x / 10.0 for x in a]; fb = [x / 10.0 for x in b]
+        ma = float(np.asarray(fa).sum()) / n; mb = float(np.asarray(fb).sum()) / n
+        if ma != mb and abs(ma - mb) < 1e-12:
+            lo, hi = (fa, fb) if ma < mb else (fb, fa)
+            kind = rng.choice(["greedy", "greedy", "ucb"])
+            arms = rng.sample(range(0, 9), rng.choice([2, 3]))
+            ds = [arms[0]] * n + [arms[1]] * n
+            rs = lo + hi
+            if len(arms) == 3:                                   # a third arm, clearly worse
+                ds += [arms[2]] * n; rs += [0.0] * n
+            npol = None; cx = None; q = lambda m: None
+            if rng.random() < 0.4:
+                npol = rng.choice([("knearest", len(ds), "euclidean"), ("radius", 100.0, "euclidean", None)])
+                cx = gen.gen_ctx(rng, len(ds), 2); q = lambda m: gen.gen_ctx(rng, m, 2)
+            return {"arms": arms, "lp": (kind, 0.0 if kind == "greedy" else 1.0), "np": npol, "seed": rng.randint(0, 10**6),
+                    "ops": [("fit", ds, rs, cx), ("pred", q(1)), ("pexp", q(1)), ("pred", q(3) if cx is not None else None)],
+                    "label": rng.choice(["int", "str"]), "mode": "exact", "reward_style": "float"}
+    return None
+
 def g_c09(rng, tier):
     """half of the cases force exact ties between arms (constant rewards, no bonus, untrained arms)"""
+    if rng.random() < 0.08:
+        c = g_c09_near_tie(rng)
+        if c is not None:
+            return c
     if rng.random() < 0.12:
         c = g_c09_tie_after_warm(rng)
         if c is not None:
